@@ -6,6 +6,8 @@ mahalanobis_distance judges the distances.  Every case is built sparse and dense
 """
 import numpy as np
 
+from vf.tx import amax as _amax
+
 from vf.core import Workload
 from vf import taps, gen, gmrfmon, ref
 
@@ -52,7 +54,7 @@ class DistanceMonitor(taps.Monitor):
             got = got ** 2
         nrm = max(1.0, float(np.abs(exp).max()))
         tol = (1e-8 if np.dtype(m.dtype) == np.float64 else 1e-3) * nrm
-        if got.shape != exp.shape or np.abs(got - exp).max() > tol:
+        if got.shape != exp.shape or _amax(got - exp) > tol:
             ctx.fail("mahalanobis_distance_is_not_the_quadratic_form_of_the_precision", cls=cls, mech=mech)
         if (got < -tol).any():
             ctx.fail("negative_mahalanobis_distance", cls=cls, mech=mech)
@@ -109,7 +111,7 @@ def run_case(ctx, rng, graph, gkind, i):
     ctx.err("sparse_vs_dense", e / nrm)
     ctx.tap("sparse_vs_dense", "calls"); ctx.tap("sparse_vs_dense", "checked")
     iso = bool(graph.n_edges and graph.has_isolated_vertices())
-    if Qs.shape != Qd.shape or e > (1e-9 if dtype == np.float64 else 1e-5) * nrm:
+    if Qs.shape != Qd.shape or not (e <= (1e-9 if dtype == np.float64 else 1e-5) * nrm):
         ctx.fail("sparse_and_dense_precision_differ", cls="GMRFVectorModel", mech="%s:%s" % (gkind, "isolated_vertices" if iso else "no_isolated"), rel_err=e / nrm)
     # distances: zero at the mean, non-negative, single == batch, sparse == dense
     q = X[:7] + rng.normal(scale=0.5, size=(7, X.shape[1]))
@@ -120,21 +122,21 @@ def run_case(ctx, rng, graph, gkind, i):
             ctx.fail("distance_at_the_mean_is_not_zero", cls="GMRFVectorModel", mech="sparse" if sparse else "dense", got=float(d0))
         batch = np.asarray(m.mahalanobis_distance(q), dtype=float)
         single = np.array([float(m.mahalanobis_distance(row)) for row in q])
-        if batch.shape != single.shape or np.abs(batch - single).max() > 1e-6 * max(1.0, np.abs(batch).max()):
+        if batch.shape != single.shape or _amax(batch - single) > 1e-6 * max(1.0, np.abs(batch).max()):
             ctx.fail("batched_and_single_distances_differ", cls="GMRFVectorModel", mech="sparse" if sparse else "dense")
         root = np.asarray(m.mahalanobis_distance(q, square_root=True), dtype=float)
         ok = batch >= 0
-        if np.abs(root[ok] ** 2 - batch[ok]).max() > 1e-6 * max(1.0, np.abs(batch).max()):
+        if _amax(root[ok] ** 2 - batch[ok]) > 1e-6 * max(1.0, np.abs(batch).max()):
             ctx.fail("square_root_distance_inconsistent", cls="GMRFVectorModel")
         ds[sparse] = batch
-    if np.abs(ds[True] - ds[False]).max() > (1e-8 if dtype == np.float64 else 1e-3) * max(1.0, np.abs(ds[False]).max()):
+    if _amax(ds[True] - ds[False]) > (1e-8 if dtype == np.float64 else 1e-3) * max(1.0, np.abs(ds[False]).max()):
         ctx.fail("sparse_and_dense_distances_differ", cls="GMRFVectorModel", mech=gkind)
     # the PCA of the model has orthonormal components (only meaningful for a positive definite precision)
     if not iso and trunc is None and dtype == np.float64 and rng.random() < 0.3:
         try:
             pm = models[False].principal_components_analysis()
             g = pm.components @ pm.components.T
-            if np.abs(g - np.eye(len(g))).max() > 1e-6:
+            if _amax(g - np.eye(len(g))) > 1e-6:
                 ctx.fail("pca_of_the_gmrf_is_not_orthonormal", cls="GMRFVectorModel")
         except Exception as ex:
             ctx.bump("pca_of_gmrf_raised:" + type(ex).__name__)
@@ -142,7 +144,7 @@ def run_case(ctx, rng, graph, gkind, i):
     if i % 5 == 0 and k in (2, 3) and dtype == np.float64:
         samples = [ms.PointCloud(row.reshape(V, k)) for row in X]
         om = GMRFModel(samples, graph, mode=mode, n_components=trunc, sparse=True, bias=bias)
-        if np.abs(gmrfmon.dense(om.precision) - Qs).max() > 1e-9 * nrm:
+        if _amax(gmrfmon.dense(om.precision) - Qs) > 1e-9 * nrm:
             ctx.fail("object_backed_model_differs_from_vector_model", cls="GMRFModel")
         om.mahalanobis_distance(samples[0]); om.mahalanobis_distance(samples[:3])
     ctx.count_case((gkind, V, int(graph.n_edges), k, mode, bias, np.dtype(dtype).name, "none" if trunc is None else ("below" if trunc < block else "above"), iso),
